@@ -571,6 +571,67 @@ static void dict_refusals(void)
 		v_violation("isal_deflate_process_dict dict_len=0", "accepted an empty dictionary");
 }
 
+/* length sweep: the vector match finders work through the input in fixed-size pieces and hand the rest to a finishing routine, so
+ * which code path meets a given position depends on the input length modulo the piece size. Data: 16-symbol noise with period
+ * 2^w + k (every position repeats exactly one period back, i.e. JUST outside the window, and nowhere nearer), compressible enough
+ * to be Huffman coded. EVERY length in a range of 4300 consecutive values x levels 1-3 x every kernel set, one-shot and one-call. */
+static void length_sweep(uint64_t *unit)
+{
+	static const int cpus[] = { CPU_BASE, CPU_SSE, CPU_AVX, CPU_AVX2, CPU_AVX512, CPU_AVX512G2 };
+	static const int ws_q[] = { 9, 11, 13 }, ws_t[] = { 9, 10, 11, 12, 13, 14 };
+	char key[400], why[256];
+	for (int wi = 0; wi < (v_thorough ? 6 : 3); wi++)
+		for (int k = 1; k <= (v_thorough ? 9 : 1); k += 8)
+			for (int n0 = 0; n0 < 4300; n0 += 20) {
+				uint64_t id = (*unit)++;
+				if (!v_mine(id))
+					continue;
+				int w = v_thorough ? ws_t[wi] : ws_q[wi];
+				size_t P = (1u << w) + k;
+				uint64_t x = 0x9e3779b97f4a7c15ull + w * 131 + k;
+				for (size_t i = 0; i < P; i++) {
+					x ^= x << 13; x ^= x >> 7; x ^= x << 17;
+					IN[i] = (uint8_t)('a' + (x >> 33) % 16);
+				}
+				for (size_t i = P; i < 2 * P + 300 + 4320; i++)
+					IN[i] = IN[i - P];
+				for (int dn = 0; dn < 20; dn++)
+					for (int ci = 0; ci < 6; ci++)
+						for (int level = 1; level <= 3; level++) {
+							if (nfail > 30 || v_deadline_hit())
+								return;
+							size_t len = 2 * P + 300 + n0 + dn, ol;
+							int api = (n0 / 20 + dn + ci) % 2 ? API_ONECALL : API_STATELESS;
+							cpu_set_level(cpus[ci]);
+							struct cparams p = { level, NO_FLUSH, IGZIP_DEFLATE, w, 0, LB_MIN, api, 0, 0 };
+							struct isal_zstream *s;
+							int r = c_deflate(&p, IN, len, OUT, 2 * len + 4096, &ol, &s);
+							v_eval();
+							snprintf(key, sizeof key, "length-sweep %s cpu=%s input=16-symbol noise of period 2^%d+%d, %zu bytes", cparams_str(&p), cpu_level_name[cpus[ci]], w, k, len);
+							if (r != COMP_OK || s->internal_state.state != ZSTATE_END) {
+								v_violation(key, "compress: return %d state %d", r, s ? (int)s->internal_state.state : -1);
+								nfail++;
+								g_reset();
+								continue;
+							}
+							g_reset();
+							uint32_t window = 1u << w;
+							if (!verify_deflate_output(OUT, ol, p.gzip_flag, IN, len, 0, window, NULL, 0, why, sizeof why)) {
+								v_violation(key, "reference decoder with window 2^%d: %s (max distance seen %u)", w, why, vs_res.max_dist);
+								nfail++;
+								continue;
+							}
+							if (vs_res.max_dist > window) {
+								v_violation(key, "match distance %u exceeds the requested window %u", vs_res.max_dist, window);
+								nfail++;
+								continue;
+							}
+							v_count("length_sweep_streams", 1);
+						}
+				v_nontrivial(v_mix(id, w));
+			}
+}
+
 int main(int argc, char **argv)
 {
 	v_init(argc, argv, "C17");
@@ -611,6 +672,7 @@ int main(int argc, char **argv)
 					}
 					window_case(id, len, w);
 				}
+		length_sweep(&unit);
 	}
 	if (!v_part || !strcmp(v_part, "dict")) {
 		dict_cases(&unit);
